@@ -270,14 +270,23 @@ func lineText(id string, fx *fixture, accessLog, errLog string) string {
 
 // lines that are not part of the model (no observable effect); they are written at
 // seeded positions so that their place in the file varies as well
-var neutral = []string{"bind 127.0.0.1", "tls off", "limits 1mb", "timeouts 1m"}
+// (the last one is a rule for a path no request of the battery asks for, whose quoted value is
+// wrapped shell-style over two physical lines: what follows it is still a line of its own)
+var neutral = []string{"bind 127.0.0.1", "tls off", "limits 1mb", "timeouts 1m", "header /zz-unused X-Wrapped \"first half; \\\n\t\tsecond half\""}
+
+// plainNeutral: leave out the wrapped line (the sanity start, which must only tell whether the
+// harness works at all)
+var plainNeutral = false
 
 func casketfile(order []string, fx *fixture, port int, accessLog, errLog string, rnd *rand.Rand) string {
 	lines := make([]string, 0, len(order)+2)
 	for _, id := range order {
 		lines = append(lines, lineText(id, fx, accessLog, errLog))
 	}
-	for _, n := range neutral {
+	for i, n := range neutral {
+		if plainNeutral && i == len(neutral)-1 {
+			continue
+		}
 		k := rnd.Intn(len(lines) + 1)
 		lines = append(lines[:k], append([]string{n}, lines[k:]...)...)
 	}
@@ -1143,7 +1152,10 @@ func TestC09(t *testing.T) {
 	runners := make([]*runner, 0, workers+1)
 	for w := 0; w <= workers; w++ {
 		rn := newRunner(t, fx, w)
-		if err := rn.warm(); err != nil {
+		plainNeutral = true
+		err := rn.warm()
+		plainNeutral = false
+		if err != nil {
 			res.Infra = err.Error()
 			return
 		}
@@ -1151,7 +1163,9 @@ func TestC09(t *testing.T) {
 	}
 	c.warmed = true
 	if !hx.SelfTest() {
+		plainNeutral = true // also a sanity phase: is the model of each single line still the code's?
 		c.findDrift(runners[workers], blocks)
+		plainNeutral = false
 		res.AddExtra("lines_with_stale_model", len(c.drift))
 	}
 
